@@ -14,7 +14,7 @@ CHECKS = {
  "C02": ("mergex", "DESIGN.md §4 E2, §5 C02",
    "exhaustive enumeration of (document, merge patch) edges over value families vs. RFC 7396 pseudo-code",
    "All edges D x P over enumerated value families (every JSON value of bounded depth/width over a small name and scalar alphabet, incl. type changes at depth 3 and nulls inside arrays) are run through MergePatch and compared with the RFC 7396 pseudo-code on independent trees; documents and patches are also fed in reordered / whitespace / escaped spellings.",
-   T+"Bounds: value families V1..V3 (names a,b,c; arrays <= 2 elements; depth <= 3)."),
+   T+"Bounds: value families V1..V4 (names a,b,c; arrays <= 3 elements; depth <= 3). Built in the shim flavour: every call also runs under every rotation of each map iteration inside the library (12 range sites rewritten at build time); an outcome that depends on the order is a violation."),
  "C03": ("mergex", "DESIGN.md §4 E2, §5 C03",
    "exhaustive enumeration of ordered pairs (A,B) with round-trip and minimality oracle",
    "CreateMergePatch is run on all ordered pairs of objects of the value family (plus numbers beyond float64 precision), pairs of arrays of objects, and all pairs of other roots; oracle: success, {} iff equal, every mentioned path differs, removed => null, values are B's literals, RFC and library round trip when B has no null member, rejection of wrong-shaped roots.",
